@@ -1,0 +1,13 @@
+//go:build verif
+// +build verif
+
+package dkg
+
+import (
+	"math/big"
+
+	"github.com/dedis/kyber"
+)
+
+// VerifDecodePubKey is decodePubKey (group public key → the four coordinates registered on chain).
+func VerifDecodePubKey(pubKey kyber.Point) ([4]*big.Int, error) { return decodePubKey(pubKey) }
